@@ -7,6 +7,7 @@ use crate::engine::json::hex_short;
 use crate::engine::run::{fp_bytes, Ctx, Local, Tier};
 use crate::engine::space::{b26, B12};
 use crate::refmodel::read;
+use crate::subject::observe;
 use rtcp_types::prelude::*;
 use rtcp_types::*;
 
@@ -739,6 +740,19 @@ fn c12_case(s: &[u8], l: &mut Local) {
                 for (how, got) in [("TryFrom<&Packet>", &by_ref), ("Packet::try_as", &by_try_as), ("TryFrom<Packet>", &by_val)] {
                     if *got != want {
                         l.violation(format!("conversion-wrong:{}:{}", how, stringify!($T)), || hex_short(s), || format!("{} -> {}: got {:?}, expected {:?}", how, stringify!($T), got, want));
+                    }
+                }
+                // independently of the types' own `==` (the comparison above): a successful conversion reads, accessor
+                // by accessor, like the packet it was made from
+                if s.len() <= 4096 && variant == Some($pt) {
+                    let src = observe::obs_packet(p, s.len()).map_err(|e| format!("{:?}", e));
+                    for (how, got) in [("TryFrom<&Packet>", &by_ref), ("Packet::try_as", &by_try_as), ("TryFrom<Packet>", &by_val)] {
+                        if let Ok(x) = got {
+                            let conv = observe::obs_packet(&Packet::from(x.clone()), s.len()).map_err(|e| format!("{:?}", e));
+                            if conv != src {
+                                l.violation(format!("conversion-reads-differently:{}:{}", how, stringify!($T)), || hex_short(s), || format!("{} -> {}: the converted value reads {:?}, the source {:?}", how, stringify!($T), conv, src));
+                            }
+                        }
                     }
                 }
                 if let (Ok(v), Some(vp)) = (by_val, variant) {
